@@ -144,9 +144,17 @@ func (g *Generator) Adjust(adjust *nri.ContainerAdjustment) error {
 func (g *Generator) AdjustEnv(env []*nri.KeyValue) {
 	mod := map[string]*nri.KeyValue{}
 
+	// collect removals first, then additions, so that setting a variable
+	// always wins over removing it, regardless of their order
 	for _, e := range env {
-		key, _ := nri.IsMarkedForRemoval(e.Key)
-		mod[key] = e
+		if key, marked := e.IsMarkedForRemoval(); marked {
+			mod[key] = e
+		}
+	}
+	for _, e := range env {
+		if _, marked := e.IsMarkedForRemoval(); !marked {
+			mod[e.Key] = e
+		}
 	}
 
 	// first modify existing environment
@@ -347,12 +355,18 @@ func (g *Generator) AdjustOomScoreAdj(score *nri.OptionalInt) {
 
 // AdjustDevices adjusts the (Linux) devices in the OCI Spec.
 func (g *Generator) AdjustDevices(devices []*nri.LinuxDevice) {
+	// do removals first, then additions, so that adding a device
+	// always wins over removing it, regardless of their order
 	for _, d := range devices {
-		key, marked := d.IsMarkedForRemoval()
-		g.RemoveDevice(key)
-		if marked {
+		if key, marked := d.IsMarkedForRemoval(); marked {
+			g.RemoveDevice(key)
+		}
+	}
+	for _, d := range devices {
+		if _, marked := d.IsMarkedForRemoval(); marked {
 			continue
 		}
+		g.RemoveDevice(d.Path)
 		g.AddDevice(d.ToOCI())
 		major, minor, access := &d.Major, &d.Minor, d.AccessString()
 		g.AddLinuxResourcesDevice(true, d.Type, major, minor, access)
@@ -396,10 +410,17 @@ func (g *Generator) AdjustMounts(mounts []*nri.Mount) error {
 		return nil
 	}
 
-	propagation := ""
+	// do removals first, then additions, so that adding a mount
+	// always wins over removing it, regardless of their order
 	for _, m := range mounts {
 		if destination, marked := m.IsMarkedForRemoval(); marked {
 			g.RemoveMount(destination)
+		}
+	}
+
+	propagation := ""
+	for _, m := range mounts {
+		if _, marked := m.IsMarkedForRemoval(); marked {
 			continue
 		}
 
